@@ -1172,11 +1172,16 @@ READS = ['sssr', 'rings_count', 'connected_components', 'atoms_rings', 'atoms_ri
          'not_special_connectivity', 'connected_components_count', 'rings_graph']
 NULLARY = ['kekule', 'thiele', 'explicify_hydrogens', 'implicify_hydrogens', 'remove_coordinate_bonds', 'remove_metals',
            'split_metal_salts', 'canonicalize', 'neutralize', 'remove_hydrogen_bonds', 'clean_stereo', 'fix_structure',
-           'standardize', 'standardize_charges', 'fix_resonance', 'clean_isotopes']
+           'standardize', 'standardize_charges', 'fix_resonance', 'clean_isotopes', 'remove_acids']
 HISTORY_STARTS = ['C1CCCCC1', 'CCCCCC', 'CCC1CCCCC1', 'CCCC.CCC', 'c1ccccc1', 'c1ccc2ccccc2c1', 'C1CC2CCC1C2', 'C1CC1C1CC1',
                   'c1ccccn1~[Pd](Cl)(Cl)~n1ccccc1', '[Fe]~C1=CC=CC1', 'C1CCOC1~[Mg](Br)C', 'O~[Na+].[Cl-]', 'CC(=O)O~[Cu]~OC(C)=O',
                   'N~[Pt](~N)(Cl)Cl', 'C1CN~[Ni]~NC1', 'OC(=O)c1ccccc1O', 'C1CC2(C1)CCC2', '[Na+].[O-]c1ccccc1', 'C1=CC=CC=C1',
                   'O=C1C=CC(=O)C=C1', 'C12C3C4C1C5C2C3C45']
+
+
+SALT_STARTS = ['[Na+].[O-]c1ccccc1', '[K+].[Cl-].C1CCCCC1', 'N.[Na+].OC(=O)c1ccccc1', '[Li+].[Cl-].c1ccccc1.N', '[Mg+2].[Cl-].[Cl-].C1CC1',
+               '[Ca+2].[O-]C(=O)C1CC1.[O-]C(=O)C', '[Na+].[Na+].[O-]C1CCC([O-])CC1', 'N.N.C1CC2CCC1C2.[K+].[I-]', 'Cl.NC1CCCCC1', 'OS(=O)(=O)O.c1ccncc1']
+SALT_FIRST = ['remove_metals', 'remove_metals', 'split_metal_salts', 'remove_acids']
 
 
 class Abort(Exception):
@@ -1329,12 +1334,10 @@ def gen_history(rng, start, steps, first=None):
     one of which is (usually) executed first — the step that is known to rewrite this start"""
     mol, _ = wire.ints_to_mol(start, calc=True)
     mol.fix_structure()
-    for name in rng.sample(READS, rng.randint(2, len(READS))):   # views a caller looked at before editing
-        try:
-            getattr(mol, name)
-        except Exception:
-            pass
-    ops = []
+    # views a caller looked at before editing: part of the recorded history (a stale view that survives a later operation
+    # is only reproduced by a replay that reads the same views first)
+    ops = [['read', rng.sample(READS, rng.randint(2, len(READS)))]]
+    mol = apply_op(mol, ops[0])
     for i in range(steps):
         op = [rng.choice(first)] if first and i == 0 and rng.random() < 0.8 else _next_op(rng, mol)
         try:
@@ -1550,6 +1553,13 @@ def correspond(ctx):
     for tag, ints in rstarts:
         add('rule-instance', ints)
     starts = [(s0, None) for s0 in starts] + [(ints, ['standardize', 'standardize', 'canonicalize']) for _, ints in rstarts]
+    # salts with isolated ions / ammonia: the operations that REMOVE whole components (remove_metals, split_metal_salts,
+    # remove_acids) are executed first, on an object whose component and ring views were read before (round 4, C06-r4-2:
+    # a flush that wrongly keeps the cached components is only visible when a component disappears)
+    for smi in SALT_STARTS:
+        m = molgen.parse(smi)
+        if m is not None:
+            starts.append((wire.mol_to_ints(m), SALT_FIRST))
     for start, first in starts:
         for _ in range((6 if ctx.quick else 16) if first is None else (3 if ctx.quick else 10)):
             try:
